@@ -76,7 +76,8 @@ theorem friendly_move_legal_all_sizes (var : Variant) (hv : var ≠ .center) (co
     (g : GameRec) (p : Pos) (o : CheckOracle) (f' : Option (Variant × Rule)) (a : Action)
     (hcol : g.color = color) (hview : viewOfPos p = viewOf t.cur) (hmv : p.toMove = t.cur.toMove)
     (hprev : prevViews g = t.prev.map (fun (q, m) => (viewOf q, m)))
-    (h : Glue.friendlyGetMove (some (var, t.rule)) g p o = .ok (f', a))
+    (r : Rule) (hnotes : Glue.entryNotes var r g p = .ok t.rule)
+    (h : Glue.friendlyGetMove (some (var, r)) g p o = .ok (f', a))
     (ans : Move) (hsearch : a.searches = true → (Spec.step t.cur (Spec.decode ans)).isSome = true) :
     a.returned ans = zeroMove ∨ (Spec.step t.cur (Spec.decode (a.returned ans))).isSome = true := by
   have hH : Holds var color size 6 := by
@@ -84,7 +85,7 @@ theorem friendly_move_legal_all_sizes (var : Variant) (hv : var ≠ .center) (co
     · exact absurd rfl hv
     · exact fpa_doubleStack size hs color hc
     · exact fpa_cairn size hs color hc
-  exact friendly_move_legal var color size 6 hH k hk t hreach g p o f' a hcol hview hmv hprev h ans hsearch
+  exact friendly_move_legal var color size 6 hH k hk t hreach g p o f' a hcol hview hmv hprev r hnotes h ans hsearch
 
 /-! ### a concrete instance on the 8×8 board
 
